@@ -414,3 +414,63 @@ def flow_script(r, idx, fate_vec=None):
     steps.append({"do": "run_until", "what": "apps", "max_us": 40000000})
     steps.append({"do": "run", "us": 300000})
     return {"cfg": cfg, "steps": steps, "tag": {"family": "flow", "idx": idx}}
+
+
+# ------------------------------------------------------------------------------------------------
+# C12
+
+CC_MENU = ["newreno", "cubic", "bbr", "fixed:2400", "fixed:3000", "fixed:12000", "fixed:1000000",
+           "flip:2400:12000", "flip:1200:50000:3000"]
+
+
+def recovery_script(r, idx, fate_vec=None):
+    clean = fate_vec is None and r.random() < 0.35
+    cfg = base_cfg(r, server=tcfg_menu(r), client=tcfg_menu(r))
+    for side in ("server", "client"):
+        cfg[side]["idle_ms"] = 30000
+        cfg[side].pop("keep_alive_ms", None)
+        cfg[side]["cc"] = r.choice(CC_MENU)
+    if clean:
+        cfg["latency_us"] = r.choice([1000, 10000, 80000])
+    elif fate_vec is not None:
+        half = len(fate_vec) // 2
+        pre = r.choice([0, 3, 6])
+        cfg["fates_c2s"] = ["ok"] * pre + [FATE_MAP[f] for f in fate_vec[:half]]
+        cfg["fates_s2c"] = ["ok"] * pre + [FATE_MAP[f] for f in fate_vec[half:]]
+    else:
+        cfg["fates_c2s"] = fates(r, 30)
+        cfg["fates_s2c"] = fates(r, 30)
+        if r.random() < 0.5:
+            cfg["loss_pct"] = r.choice([3, 10, 30])
+            cfg["dup_pct"] = r.choice([0, 5])
+        if r.random() < 0.3:
+            cfg["jitter_us"] = r.choice([3000, 25000])
+        if r.random() < 0.2:
+            cfg["ce_mark"] = True
+        if r.random() < 0.2:
+            cfg["incoming"] = "retry"
+    if r.random() < 0.3:
+        cfg["max_datagrams"] = r.choice([1, 2, 4])
+    steps = [{"do": "connect", "n": 1}]
+    steps.append(workload(r, big=r.random() < 0.5))
+    if r.random() < 0.5:
+        steps.append({"do": "run_until", "what": "connected", "max_us": 20000000})
+        steps.append(workload(r, n=0, c=0, big=r.random() < 0.5))
+    apps = [s for s in steps if s.get("do") == "app"]
+    if max(a["maxsize"] for a in apps) > 1200:
+        for a in apps:
+            if a["read_max"] < 900:
+                a["read_max"] = 1 << 20
+    if not clean:
+        for _ in range(r.choice([0, 0, 1, 2])):
+            steps.append({"do": "run", "us": r.choice([2000, 15000, 50000])})
+            k = r.random()
+            if k < 0.4:
+                steps.append({"do": "op", "n": r.choice([0, 1]), "c": 0, "op": {"op": "key_update"}})
+            elif k < 0.7:
+                steps.append({"do": "migrate", "n": 1, "addr": [r.choice([1, 3]), 1, r.choice([50000, 50009])]})
+            else:
+                steps.append({"do": "set", "key": "link_mtu", "v": r.choice([1200, 1350, 1500])})
+    steps.append({"do": "run_until", "what": "apps", "max_us": 60000000})
+    steps.append({"do": "run", "us": 2000000})
+    return {"cfg": cfg, "steps": steps, "tag": {"family": "recovery-clean" if clean else "recovery", "idx": idx}}
